@@ -40,7 +40,7 @@ def strategy(tier):
     def _s(draw):
         case = draw(
             SC.solve_case(
-                families=("nlp", "nlp", "qp", "degenerate", "infeasible", "unbounded"),
+                families=("nlp", "nlp", "qp", "degenerate", "infeasible", "unbounded", "patternvar"),
                 max_n=4 if tier == "quick" else 6,
                 max_m=3,
                 iteration_limit=150 if tier == "quick" else 300,
@@ -56,6 +56,8 @@ def strategy(tier):
             extra["obj_lower_limit"] = -1e3
         if draw(st.integers(0, 5)) == 0:
             extra["lamb_max"] = 1e4
+        if draw(st.integers(0, 5)) == 0:
+            extra["precision"] = "Single"  # a documented Params option: "precision to be used in all calculations"
         case["params_extra"] = extra
         return case
 
@@ -68,6 +70,8 @@ def check(case):
     for k in ("report_rcond", "collect_path"):
         if ex.get(k):
             labels.append(k)
+    if ex.get("precision"):
+        labels.append("precision:Single")
     if case["params"].get("linear_solver_type") != "LU" and ex.get("report_rcond"):
         labels.append("pair:rcond+iterative")
     if "Filter" in case["params"].get("penalty_update", "") and case["params"].get("step_control_type") == "Fixed":
